@@ -67,6 +67,16 @@ def _is_simple(e):
     return False
 
 
+def _mutable_display(v):
+    for n in ast.walk(v):
+        if isinstance(n, (ast.Dict, ast.List, ast.Set, ast.ListComp, ast.DictComp, ast.SetComp)):
+            return True
+        if isinstance(n, ast.Call) and ast.unparse(n.func).split(".")[-1] in ("dict", "list", "set", "bytearray", "defaultdict", "OrderedDict",
+                                                                               "deque", "Counter"):
+            return True
+    return False
+
+
 def _is_const_expr(e):
     if isinstance(e, ast.Constant):
         return True
@@ -339,7 +349,88 @@ class Normalizer:
             if isinstance(n, ast.Global):
                 for g in n.names:
                     out.pop(g, None)
+        # a NEW module-level container (`_SEEN = {}`, `_CACHE = []`) is ONE object shared by all its users: substituting the display
+        # would give every use a fresh empty container and hide what is stored in it.  It is a constant only when every use in the
+        # repository is a read (lookup, iteration, membership, len, unpacking)
+        for name in [k for k, v in out.items() if _mutable_display(v)]:
+            if not self._only_read(mod, name):
+                out.pop(name)
+                self.__dict__.setdefault("shared_containers", []).append((mod.name, name))
         return out
+
+    _READ_METHODS = ("get", "keys", "values", "items", "index", "count", "copy", "__contains__", "__getitem__", "__len__", "__iter__",
+                     "issubset", "issuperset", "isdisjoint", "union", "intersection", "difference")
+
+    def _only_read(self, mod, name):
+        for m in self.repo.mods.values():
+            alias = None
+            if m is mod:
+                alias = name
+            else:
+                for a, (tm, attr) in m.imports.items():
+                    if attr == name and tm == mod.name:
+                        alias = a
+            parents = None
+            for n in ast.walk(m.tree):
+                hit = False
+                if alias is not None and isinstance(n, ast.Name) and n.id == alias and isinstance(n.ctx, ast.Load):
+                    hit = True
+                elif isinstance(n, ast.Attribute) and n.attr == name and isinstance(n.value, ast.Name) \
+                        and m.imports.get(n.value.id, (None, 0))[1] is None and m.imports.get(n.value.id, ("",))[0] == mod.name:
+                    hit = True
+                if not hit:
+                    continue
+                if parents is None:
+                    parents = {}
+                    for p_ in ast.walk(m.tree):
+                        for c_ in ast.iter_child_nodes(p_):
+                            parents[id(c_)] = p_
+                if self._read_context(n, parents):
+                    continue
+                return False
+        return True
+
+    def _attr_only_read(self, attr):
+        """every `<x>.attr` of the repository is a read of the container (class-level tables)"""
+        for m in self.repo.mods.values():
+            parents = None
+            for n in ast.walk(m.tree):
+                if not (isinstance(n, ast.Attribute) and n.attr == attr):
+                    continue
+                if not isinstance(n.ctx, ast.Load):
+                    return False
+                if parents is None:
+                    parents = {}
+                    for p_ in ast.walk(m.tree):
+                        for c_ in ast.iter_child_nodes(p_):
+                            parents[id(c_)] = p_
+                if not self._read_context(n, parents):
+                    return False
+        return True
+
+    def _read_context(self, n, parents):
+        if True:
+            if True:
+                par = parents.get(id(n))
+                if isinstance(par, ast.Subscript) and par.value is n and isinstance(par.ctx, ast.Load):
+                    return True
+                if isinstance(par, ast.Attribute) and par.value is n and par.attr in self._READ_METHODS:
+                    gp = parents.get(id(par))
+                    if isinstance(gp, ast.Call) and gp.func is par:
+                        return True
+                if isinstance(par, ast.Compare) and n in par.comparators and all(isinstance(o, (ast.In, ast.NotIn)) for o in par.ops):
+                    return True
+                if isinstance(par, (ast.For, ast.comprehension)) and par.iter is n:
+                    return True
+                if isinstance(par, ast.Call) and isinstance(par.func, ast.Name) and par.func.id in ("len", "sorted", "list", "tuple", "set", "dict",
+                                                                                                     "frozenset", "min", "max", "sum", "any", "all",
+                                                                                                     "enumerate", "zip", "reversed", "iter") \
+                        and n in par.args:
+                    return True
+                if isinstance(par, ast.Starred) or (isinstance(par, ast.keyword) and par.arg is None) \
+                        or (isinstance(par, ast.Dict) and n in par.values and par.keys[par.values.index(n)] is None):
+                    return True
+                return False
 
     def evaluate_constant(self, mod, name, val, known_consts):
         fn = ast.FunctionDef(name=f"__const_{name}", args=ast.arguments(posonlyargs=[], args=[], vararg=None, kwonlyargs=[], kw_defaults=[],
@@ -374,7 +465,8 @@ class Normalizer:
         known = self.inv["class_names"].get(ci.qual)
         if known is None:
             return {}
-        return {k: v for k, v in ci.attrs.items() if k not in known and _is_const_expr(v)}
+        return {k: v for k, v in ci.attrs.items() if k not in known and _is_const_expr(v)
+                and (not _mutable_display(v) or self._attr_only_read(k))}
 
     # ---------------------------------------------------------------- callee resolution
     def resolve(self, call, mod, cls, selfname):
@@ -572,7 +664,10 @@ class Normalizer:
         for p, v in bind.items():
             if p == keep and isinstance(v, ast.Name) and v.id == p:
                 continue          # identity binding: the caller's variable of the same name carries the value in
-            if p not in stored and (_is_simple(v) or _simple_val(v) or (uses.get(p, 0) <= 1 and not _has(v, ast.Call))):
+            if p not in stored and (_is_simple(v) or _simple_val(v) or (uses.get(p, 0) <= 1 and not _has(v, ast.Call))) \
+                    and (isinstance(v, (ast.Name, ast.Constant)) or deferrable(p, v, body, _locals_of(hnode), getattr(self.repo.funcs.get(hq), "mod", None))):
+                # (by-name substitution: the argument is evaluated where the parameter is read - sound only when nothing the
+                #  helper does before that read can change what the argument evaluates to)
                 loads[p] = v
                 continue
             new = p if p not in caller_names else f"{p}__i{tag}"
@@ -1840,6 +1935,9 @@ def attr_stability(repo):
                     elif isinstance(s_, (ast.FunctionDef, ast.AsyncFunctionDef)):
                         selfn = s_.args.args[0].arg if s_.args.args else None
                         is_prop = any(isinstance(d, ast.Name) and d.id == "property" for d in s_.decorator_list)
+                        if not s_.decorator_list or all(isinstance(d, ast.Name) and d.id in ("staticmethod", "classmethod")
+                                                        for d in s_.decorator_list):
+                            cnames.add(s_.name)          # a method: `o.m` is the same bound method unless somebody assigns `o.m`
                         if is_prop:
                             e_ = single_expr_of(s_.body)
                             tgt = e_.attr if isinstance(e_, ast.Attribute) and isinstance(e_.value, ast.Name) and e_.value.id == selfn else None
@@ -1876,6 +1974,7 @@ def attr_stability(repo):
     for a, tg in props.items():       # a property that only returns one stable attribute of its instance
         if a not in other_names and a not in unstable_dyn and len(tg) == 1 and None not in tg and next(iter(tg)) in stable:
             stable.add(a)
+    stable.add("__dict__")          # the instance dictionary is one object for the life of the instance (only its content changes)
     repo._attr_stability = stable
     return stable
 
@@ -1892,44 +1991,231 @@ def _stmt_has_effect(st):
     return False
 
 
-def no_effect_before_reads(name, later):
-    """every read of `name` in `later` happens before anything with an effect is evaluated after the binding"""
-    from .desugar import Desugar, is_pure
-    total = sum(1 for t in later for n in ast.walk(t) if isinstance(n, ast.Name) and n.id == name and isinstance(n.ctx, ast.Load))
-    seen = 0
-    for st in later:
-        uses = [n for n in ast.walk(st) if isinstance(n, ast.Name) and n.id == name and isinstance(n.ctx, ast.Load)]
-        if not uses:
-            if _stmt_has_effect(st):
-                return seen == total
-            continue
-        roots = None
-        if isinstance(st, (ast.Assign, ast.AugAssign, ast.AnnAssign, ast.Return, ast.Expr)) and getattr(st, "value", None) is not None:
-            roots = [st.value]
-            in_value = {id(n) for n in ast.walk(st.value)}
-            if not all(id(u) in in_value for u in uses):
-                roots = None
-        elif isinstance(st, (ast.If, ast.While)) and not isinstance(st, ast.While):
-            in_test = {id(n) for n in ast.walk(st.test)}
-            if all(id(u) in in_test for u in uses):
-                roots = [st.test]
-        if roots is None:
-            if _stmt_has_effect(st):
-                return False
-        else:
-            for u in uses:
-                bef = Desugar._before(roots[0], u)
+def no_effect_before_reads(name, later, attrs, eff, local_callables=()):
+    """every read of `name` in `later` happens before anything that may re-bind one of the attribute names `attrs` is evaluated
+    after the binding (all paths, loops taken twice): a flow-sensitive walk carrying one bit - such an effect has happened since
+    the binding.  What an expression may re-bind, transitively through the functions it calls: bsa/effects.py"""
+    from .desugar import Desugar
+
+    def is_pure(e):
+        return not eff.may_write(e, attrs, local_callables)
+
+    def _stmt_has_effect(st):
+        return eff.may_write(st, attrs, local_callables)
+
+    class Unsafe(Exception):
+        pass
+
+    def reads(node):
+        return [n for n in ast.walk(node) if isinstance(n, ast.Name) and n.id == name and isinstance(n.ctx, ast.Load)]
+
+    def expr(e, dirty):
+        if e is None:
+            return dirty
+        us = reads(e)
+        if us:
+            if dirty:
+                raise Unsafe()
+            for u in us:
+                bef = Desugar._before(e, u)
                 if bef is None:
-                    if not is_pure(roots[0]):
-                        return False
+                    if not is_pure(e):
+                        raise Unsafe()
                 elif not all(is_pure(b_) for b_ in bef):
-                    return False
-        seen += len(uses)
-        if seen == total:
-            return True
-        if _stmt_has_effect(st):
-            return False
+                    raise Unsafe()
+        return dirty or not is_pure(e)
+
+    def store(t, dirty):
+        if isinstance(t, (ast.Tuple, ast.List)):
+            for x in t.elts:
+                dirty = store(x, dirty)
+            return dirty
+        if isinstance(t, ast.Starred):
+            return store(t.value, dirty)
+        if isinstance(t, ast.Name):
+            return dirty
+        if reads(t) and dirty:
+            raise Unsafe()
+        return dirty or eff.may_write(t, attrs, local_callables)       # a store to one of the attributes, or a call in the target
+
+    def seq(stmts, dirty):
+        for st in stmts:
+            dirty = one(st, dirty)
+        return dirty
+
+    def one(st, dirty):
+        if isinstance(st, ast.If):
+            d = expr(st.test, dirty)
+            d1, d2 = seq(st.body, d), seq(st.orelse, d)
+            return d1 or d2
+        if isinstance(st, (ast.For, ast.AsyncFor)):
+            d = expr(st.iter, dirty)
+            d = store(st.target, d)
+            d1 = seq(st.body, d)
+            if d1 and not d:
+                seq(st.body, True)            # a second iteration starts after the effects of the first
+            return seq(st.orelse, d1 or d)
+        if isinstance(st, ast.While):
+            d = expr(st.test, dirty)
+            d1 = seq(st.body, d)
+            if d1 and not dirty:
+                expr(st.test, True)
+                seq(st.body, True)
+            return seq(st.orelse, d1 or d)
+        if isinstance(st, ast.Try):
+            d_body = seq(st.body, dirty)
+            d_any = dirty or any(_stmt_has_effect(x) for x in st.body)
+            outs = [seq(st.orelse, d_body)]
+            for h in st.handlers:
+                outs.append(seq(h.body, d_any))
+            d = any(outs)
+            return seq(st.finalbody, d or d_any) if st.finalbody else d
+        if isinstance(st, (ast.With, ast.AsyncWith)):
+            d = dirty
+            for it in st.items:
+                d = expr(it.context_expr, d)
+            return seq(st.body, d)
+        if isinstance(st, ast.Assign):
+            d = expr(st.value, dirty)
+            for t in st.targets:
+                d = store(t, d)
+            return d
+        if isinstance(st, ast.AnnAssign):
+            d = expr(st.value, dirty)
+            return store(st.target, d) if st.value is not None else d
+        if isinstance(st, ast.AugAssign):
+            if reads(st.target) and dirty:
+                raise Unsafe()
+            d = expr(st.value, dirty)
+            return store(st.target, d)
+        if isinstance(st, (ast.Return, ast.Expr)):
+            return expr(st.value, dirty)
+        if isinstance(st, ast.Raise):
+            return expr(st.cause, expr(st.exc, dirty))
+        if isinstance(st, ast.Assert):
+            return expr(st.msg, expr(st.test, dirty))
+        if isinstance(st, (ast.Pass, ast.Break, ast.Continue)):
+            return dirty
+        # anything else (nested definitions, delete, import, global ...): a read inside it is not followed
+        if reads(st):
+            raise Unsafe()
+        return dirty or _stmt_has_effect(st)
+
+    try:
+        seq(later, False)
+    except Unsafe:
+        return False
     return True
+
+
+class _StrictEffects:
+    """for values that depend on the CONTENT of objects (`a == b`, `x[0]`, `a + b`): any call or store is a conflicting effect"""
+    def closure(self, attrs):
+        return set(attrs)
+
+    def may_write(self, node, attrs, local_callables=()):
+        return _stmt_has_effect(node)
+
+
+def _dependence(value, mod, stable):
+    """-> ("const" | "identity" | "content", attribute names): what a later evaluation of `value` depends on.  `identity`: only on
+    which objects the listed attribute names are bound to (the chain roots are names, handled by the callers)."""
+    attrs = set()
+    content = False
+
+    def chain(a):
+        names = []
+        x = a
+        while isinstance(x, ast.Attribute):
+            names.append(x.attr)
+            x = x.value
+        if not isinstance(x, ast.Name):
+            go(x)
+            attrs.update(names)
+            return
+        if mod is not None and x.id in mod.imports and mod.imports[x.id][1] is None:
+            return                               # an attribute of an imported module (`selectors.EVENT_READ`)
+        attrs.update(n for n in names if n not in stable)
+
+    def go(e):
+        nonlocal content
+        if isinstance(e, (ast.Constant, ast.Name)):
+            return
+        if isinstance(e, ast.Attribute):
+            chain(e)
+            return
+        if isinstance(e, (ast.Tuple, ast.List, ast.Set)):
+            for x in e.elts:
+                go(x)
+            return
+        if isinstance(e, ast.Dict):
+            for x in list(e.keys) + list(e.values):
+                if x is not None:
+                    go(x)
+                else:
+                    content = True
+            return
+        if isinstance(e, ast.Starred):
+            content = True
+            return
+        if isinstance(e, ast.BoolOp):
+            for x in e.values:
+                go(x)
+            return
+        if isinstance(e, ast.UnaryOp) and isinstance(e.op, ast.Not):
+            go(e.operand)             # (the truth value of a container depends on its content; of None / a flag / an int it does not)
+            return
+        if isinstance(e, ast.IfExp):
+            go(e.test), go(e.body), go(e.orelse)
+            return
+        if isinstance(e, ast.Compare):
+            ops = [e.left] + list(e.comparators)
+            if all(isinstance(o, (ast.Is, ast.IsNot)) for o in e.ops):
+                for x in ops:
+                    go(x)
+                return
+            immut = [x for x in ops if isinstance(x, ast.Constant) and isinstance(x.value, (int, str, bytes, bool, float, type(None)))]
+            if len(immut) >= len(ops) - 1:
+                for x in ops:
+                    go(x)             # compared with an immutable constant: depends on the binding only
+                return
+            content = True
+            return
+        if isinstance(e, ast.Call):
+            from . import records as _rec
+            if isinstance(e.func, ast.Name) and e.func.id == "isinstance" and len(e.args) == 2 and not e.keywords:
+                go(e.args[0])
+                return
+            if _rec.RECORDS is not None and _rec.RECORDS.info_of_call(e) is not None:
+                for x in list(e.args) + [k.value for k in e.keywords]:
+                    go(x)
+                return
+            content = True
+            return
+        if isinstance(e, ast.BinOp) and all(isinstance(x, ast.Constant) for x in (e.left, e.right)):
+            return
+        content = True
+    go(value)
+    if content:
+        return "content", attrs
+    if not attrs:
+        return "const", attrs
+    return "identity", attrs
+
+
+def deferrable(name, value, later, local_callables=(), mod=None):
+    """may the evaluation of `value` move from the binding of `name` to the reads of `name` in the statements `later`?"""
+    repo = _REPO[0]
+    if repo is None:
+        return False
+    from .effects import effects_of
+    mode, attrs = _dependence(value, mod, attr_stability(repo))
+    if mode == "const":
+        return True
+    if mode == "identity":
+        eff = effects_of(repo)
+        return no_effect_before_reads(name, later, eff.closure(attrs), eff, local_callables)
+    return no_effect_before_reads(name, later, {"<content>"}, _StrictEffects(), local_callables)
 
 
 def propagate_aliases(fn, mod=None):
@@ -1987,11 +2273,8 @@ def propagate_aliases(fn, mod=None):
         return False
 
     def sound(name, value, later):
-        """the attribute chains of `value` still have their value at every read of `name`"""
-        ch = chains_of(value)
-        if all(chain_stable(a) or module_chain(a) for a in ch):
-            return True
-        return no_effect_before_reads(name, later)
+        """the value still evaluates to the same thing at every read of `name`"""
+        return deferrable(name, value, later, set(stores) | params, _MOD[0])
 
     def scan(stmts, depth_ok):
         for i, s in enumerate(stmts):
@@ -3223,7 +3506,8 @@ class Spelling(ast.NodeTransformer):
                 and all(isinstance(e, ast.Tuple) and len(e.elts) == len(s.target.elts) and all(_simple_val(v) for v in e.elts) for e in s.iter.elts) \
                 and not _has(s.body, (ast.Break, ast.Continue)):
             names = [t.id for t in s.target.elts]
-            if not any(isinstance(x, ast.Name) and x.id in names and isinstance(x.ctx, ast.Store) for b in s.body for x in ast.walk(b)):
+            if not any(isinstance(x, ast.Name) and x.id in names and isinstance(x.ctx, ast.Store) for b in s.body for x in ast.walk(b)) \
+                    and all(_unroll_sound(nm, row.elts[j], s.body, k) for k, row in enumerate(s.iter.elts) for j, nm in enumerate(names)):
                 out = []
                 for e in s.iter.elts:
                     for b in s.body:
@@ -3237,7 +3521,8 @@ class Spelling(ast.NodeTransformer):
         if isinstance(s, ast.For) and isinstance(s.target, ast.Name) and not s.orelse and isinstance(s.iter, (ast.Tuple, ast.List)) \
                 and 1 <= len(s.iter.elts) <= 8 and all(_simple_val(e) for e in s.iter.elts) \
                 and not _has(s.body, (ast.Break, ast.Continue)) \
-                and not any(isinstance(x, ast.Name) and x.id == s.target.id and isinstance(x.ctx, ast.Store) for b in s.body for x in ast.walk(b)):
+                and not any(isinstance(x, ast.Name) and x.id == s.target.id and isinstance(x.ctx, ast.Store) for b in s.body for x in ast.walk(b)) \
+                and all(_unroll_sound(s.target.id, e, s.body, k) for k, e in enumerate(s.iter.elts)):
             out = []
             for e in s.iter.elts:
                 for b in s.body:
@@ -3247,6 +3532,19 @@ class Spelling(ast.NodeTransformer):
             # the unrolled copies may expose getattr/setattr with literal names
             return self.block(out)
         return [s]
+
+
+def _unroll_sound(var, elt, body, k):
+    """unrolling `for var in (e0, .., en)` reads element k where the k-th copy of the body reads `var`, not when the tuple is built:
+    the same value only if neither the earlier copies nor the body before that read can change what the element evaluates to"""
+    if isinstance(elt, ast.Constant):
+        return True
+    stored = {x.id for b in body for x in ast.walk(b) if isinstance(x, ast.Name) and isinstance(x.ctx, (ast.Store, ast.Del))}
+    if any(isinstance(x, ast.Name) and x.id in stored for x in ast.walk(elt)):
+        return False                       # the body re-binds a name the element mentions
+    if isinstance(elt, ast.Name):
+        return True
+    return deferrable(var, elt, list(body) * (k + 1), None, _MOD[0])
 
 
 def _bool_locals(fn):
@@ -3284,6 +3582,8 @@ def _bool_locals(fn):
 def spelling(fn, cls=None, mod=None):
     sp = Spelling()
     sp.mod = mod if mod is not None else (cls.mod if cls is not None and hasattr(cls, "mod") else None)
+    if sp.mod is not None:
+        _MOD[0] = sp.mod
     sp.bool_locals = _bool_locals(fn)
     sp.fn = fn
     if cls is not None:
